@@ -127,6 +127,37 @@ def join_pairs(rng, d):
     return out
 
 
+def deep_join_typing_pairs(rng, d, schema):
+    """"select from one textblock into a textblock of another branch, delete, type a character": a deletion between two
+    equally deep text positions whose branches part two or more levels above them, paired with a flat text insertion at its
+    start (after it, and before it) — the merged step puts a closed slice over a range whose ends sit in different branches"""
+    tbs = []
+    d.descendants(lambda n, pos, par, i: tbs.append((pos + 1, n)) or True if n.is_textblock else True)
+    out = []
+    cands = []
+    for a in range(len(tbs)):
+        for b in range(a + 1, len(tbs)):
+            (s1, n1), (s2, n2) = tbs[a], tbs[b]
+            try:
+                r1 = d.resolve(s1)
+                if r1.depth != d.resolve(s2).depth or r1.shared_depth(s2) > r1.depth - 2:
+                    continue
+            except Exception:  # noqa: BLE001
+                continue
+            cands.append((s1, n1, s2, n2))
+    rng.shuffle(cands)
+    for s1, n1, s2, n2 in cands[:4]:
+        p = s1 + rng.choice([n1.content.size, n1.content.size, 0])
+        q = s2 + rng.choice([0, 0, n2.content.size])
+        if not (gen.pair_aligned(d, p) and gen.pair_aligned(d, q)):
+            continue
+        t1 = schema.text(gen.gen_text(rng, 1, 2, plain=True))
+        ins = Slice(Fragment.from_(t1), 0, 0)
+        out.append((ReplaceStep(p, q, Slice.empty), ReplaceStep(p, p, ins)))
+        out.append((ReplaceStep(p, p, ins), ReplaceStep(p + t1.node_size, q + t1.node_size, Slice.empty)))
+    return out
+
+
 def aimed_bridge(rng, info, n):
     """(document, pairs) in the hand-written schemas `bridge` / `bridge-local` (A ~ C ~ B, not A ~ B): three siblings
     A, C, B (or B, C, A) among random ones; deleting backwards joins the third onto the second, then the result onto
@@ -251,6 +282,7 @@ def adjacent_pairs(rng, info, d, docs):
     for _ in range(4):
         out.append((gen.gen_step(rng, info, d, docs), gen.gen_step(rng, info, d, docs)))
     out.extend(join_pairs(rng, d))
+    out.extend(deep_join_typing_pairs(__import__("random").Random(rng.random()), d, info.schema))
     return out
 
 
